@@ -123,7 +123,7 @@ func IDs() []string {
 	return out
 }
 
-var allShapes = []string{"doc", "flat", "flatb", "kv", "nested", "nestedb", "opt4", "pair", "person", "rep3", "wide"}
+var allShapes = []string{"clash", "doc", "flat", "flatb", "kv", "nested", "nestedb", "opt4", "pair", "person", "rep3", "wide"}
 
 // c13Shapes: all shapes; flat/flatb and nested/nestedb are twins (same column names, different physical types).
 var c13Shapes = allShapes
